@@ -514,3 +514,20 @@ func (p *Pipe) Alive() bool {
 	defer p.mu.Unlock()
 	return !p.dropped && !p.closed
 }
+
+// TotalSent is the number of transport messages mangos wrote on all connections of all endpoints.
+func TotalSent() int {
+	regMu.Lock()
+	eps := make([]*Endpoint, 0, len(endpoints))
+	for _, ep := range endpoints {
+		eps = append(eps, ep)
+	}
+	regMu.Unlock()
+	n := 0
+	for _, ep := range eps {
+		for i := 0; i < ep.NumPipes(); i++ {
+			n += ep.PipeAt(i).NumSent()
+		}
+	}
+	return n
+}
